@@ -427,6 +427,32 @@ func hasSym(v value, depth int) bool {
 	return false
 }
 
+// needsReflect reports whether formatting the operands would need reflect
+// features the engine's minimal reflect does not have (pointers without
+// String/Error methods, maps, funcs).
+func needsReflect(args []value) bool {
+	for _, a := range args {
+		ops, ok := a.([]value)
+		if !ok {
+			continue
+		}
+		for _, o := range ops {
+			ifc, ok := o.(iface)
+			if !ok || ifc.t == nil {
+				continue
+			}
+			switch ifc.v.(type) {
+			case *value, *omap, *closure, *ssaFunc:
+				ms := types.NewMethodSet(ifc.t)
+				if ms.Lookup(nil, "String") == nil && ms.Lookup(nil, "Error") == nil && ms.Lookup(nil, "Format") == nil {
+					return true
+				}
+			}
+		}
+	}
+	return false
+}
+
 // opaqueString is the result of formatting symbolic operands: unconstrained
 // bytes (nothing can be proved about them), so that no verdict silently
 // depends on text the engine did not compute.
@@ -502,6 +528,18 @@ func init() {
 				if hasSym(a, 0) {
 					sym = true
 				}
+			}
+			if !sym && fr.i.path != nil && needsReflect(args) {
+				// pointers, maps, funcs: the real fmt would go through reflect
+				// internals the engine does not provide; the text is opaque
+				fr.i.stubHits["fmt:opaque-result-for-reflect-only-operands"]++
+				s := fr.i.opaqueString(4)
+				if wrapErr {
+					et := fr.i.prog.ImportedPackage("errors").Type("errorString").Type()
+					var cell value = structure{s}
+					return iface{t: types.NewPointer(et), v: &cell}
+				}
+				return s
 			}
 			if !sym || fr.i.path == nil {
 				return runRealCode{}
